@@ -143,6 +143,14 @@ func (p *Proc) Close() {
 	p.dead = true
 }
 
+// Kill terminates the process from another goroutine; the pending Check
+// returns Unknown and the process is restarted on the next query.
+func (p *Proc) Kill() {
+	if p.cmd != nil && p.cmd.Process != nil {
+		p.cmd.Process.Kill()
+	}
+}
+
 func (p *Proc) send(s string) {
 	if p.dead {
 		return
